@@ -1295,23 +1295,56 @@ func ruleR10d(c *Ctx) {
 		c.bad(rule, "handle_log:revert-branch", token.NoPos, "handle_log has no REVERTED_TRANSACTION branch: the reverted flag is never projected")
 		return
 	}
-	callsRevert, usesIDKey, insertsTx, usesTxKey := false, false, false, false
-	for i := start; i < end; i++ {
-		if b[i].Text == "revert_transaction" {
-			callsRevert = true
-			// its argument list: until the closing paren at the same depth
-			d := b[i+1].Depth
-			for j := i + 2; j < end && !(b[j].Text == ")" && b[j].Depth == d); j++ {
-				if b[j].Kind == 's' && b[j].Text == idTag {
-					usesIDKey = true
+	// an `elsif` / `else` of the same chain ends the branch
+	{
+		depth := 0
+		for j := start + 1; j < end; j++ {
+			if b[j].Text == "if" && b[j-1].Text != "end" {
+				depth++
+			}
+			if b[j].Text == "end" && j+1 < len(b) && b[j+1].Text == "if" {
+				depth--
+			}
+			if depth == 0 && (b[j].Text == "elsif" || b[j].Text == "elseif" || b[j].Text == "else") && j > start+5 {
+				end = j
+				break
+			}
+		}
+	}
+	// local variables initialised once (`_transaction jsonb = new.data -> 'transaction';`) stand for their initialiser
+	locals := sqlLocalInits(b)
+	mentions := func(lo, hi int, tag string) bool {
+		for j := lo; j < hi; j++ {
+			if b[j].Kind == 's' && b[j].Text == tag {
+				return true
+			}
+			if b[j].Kind == 'w' {
+				for _, t := range locals[b[j].Text] {
+					if t.Kind == 's' && t.Text == tag {
+						return true
+					}
 				}
 			}
 		}
-		if b[i].Text == "insert_transaction" {
-			insertsTx = true
+		return false
+	}
+	callsRevert, usesIDKey, insertsTx, usesTxKey := false, false, false, false
+	for i := start; i < end; i++ {
+		if b[i].Text == "revert_transaction" || b[i].Text == "insert_transaction" {
+			// its argument list: until the closing paren at the same depth
 			d := b[i+1].Depth
-			for j := i + 2; j < end && !(b[j].Text == ")" && b[j].Depth == d); j++ {
-				if b[j].Kind == 's' && b[j].Text == txTag {
+			j := i + 2
+			for j < end && !(b[j].Text == ")" && b[j].Depth == d) {
+				j++
+			}
+			if b[i].Text == "revert_transaction" {
+				callsRevert = true
+				if mentions(i+2, j, idTag) {
+					usesIDKey = true
+				}
+			} else {
+				insertsTx = true
+				if mentions(i+2, j, txTag) {
 					usesTxKey = true
 				}
 			}
@@ -1392,4 +1425,53 @@ func ruleR10d(c *Ctx) {
 			}
 		}
 	}
+}
+
+
+// sqlLocalInits: PL/pgSQL locals of a function body that are given a value in the declare section
+// (`name type = expr;` / `:=` / `default`) and never assigned again: name -> tokens of the initialiser.
+func sqlLocalInits(b []sqlTok) map[string][]sqlTok {
+	out := map[string][]sqlTok{}
+	di, bi := -1, -1
+	for i, t := range b {
+		if t.Text == "declare" && di < 0 {
+			di = i
+		}
+		if t.Text == "begin" && di >= 0 && bi < 0 {
+			bi = i
+		}
+	}
+	if di < 0 || bi < 0 {
+		return out
+	}
+	i := di + 1
+	for i < bi {
+		j := i
+		for j < bi && b[j].Text != ";" {
+			j++
+		}
+		// declaration b[i:j]
+		if j > i && b[i].Kind == 'w' {
+			for k := i + 1; k < j; k++ {
+				if b[k].Text == "=" || b[k].Text == "default" || (b[k].Text == ":" && k+1 < j && b[k+1].Text == "=") {
+					init := k + 1
+					if b[k].Text == ":" {
+						init = k + 2
+					}
+					out[b[i].Text] = append([]sqlTok(nil), b[init:j]...)
+					break
+				}
+			}
+		}
+		i = j + 1
+	}
+	// reassigned in the body: not a constant alias
+	for k := bi; k+1 < len(b); k++ {
+		if _, ok := out[b[k].Text]; ok && b[k].Kind == 'w' && (k == 0 || b[k-1].Text == ";" || b[k-1].Text == "then" || b[k-1].Text == "begin" || b[k-1].Text == "loop" || b[k-1].Text == "else") {
+			if b[k+1].Text == "=" || b[k+1].Text == ":" {
+				delete(out, b[k].Text)
+			}
+		}
+	}
+	return out
 }
